@@ -1,0 +1,425 @@
+// Copyright 2025 The Go Authors. All rights reserved.
+// Use of this source code is governed by a BSD-style
+// license that can be found in the LICENSE file.
+
+//go:build verif
+
+package http2
+
+// Contracts for the HTTP/2 client (transport.go): request DATA within the server's windows (C09),
+// stream ids and stream limits (C17), GOAWAY handling (C18). Verified by govc (/verif).
+// cc.mu confines the connection state: Lock/Unlock are no-ops, (*sync.Cond).Wait havocs the heap
+// (monitor model, /verif/stdlib/h2client.contracts).
+
+// ---------------------------------------------------------------------------
+// C09: awaitFlowControl
+
+//@ func (*clientStream).awaitFlowControl(cs, maxBytes) (taken, err)
+//@   abstract
+//@   havoccalls except clientStream.cc, clientStream.ctx, clientStream.ID, outflow.conn
+//@   havocs except clientStream.cc, clientStream.ctx, clientStream.ID, outflow.conn
+//@   requires cs != nil && cs.cc != nil && cs.ctx != nil && maxBytes > 0
+//@   requires cs.flow.conn == &cs.cc.flow
+//@   requires 16384 <= cs.cc.maxFrameSize && cs.cc.maxFrameSize <= 1<<24-1
+//@   loop 1 assume 16384 <= cs.cc.maxFrameSize && cs.cc.maxFrameSize <= 1<<24-1
+//@   loop 1 invariant cs.cc == old(cs.cc) && cs.flow.conn == &cs.cc.flow && ghost(granted) == 0
+//@   ghost granted += int64($n) at call take
+//@   assert at call take: $n > 0 && $n <= cs.flow.n && $n <= cs.cc.flow.n && int($n) <= maxBytes && uint32($n) <= cs.cc.maxFrameSize
+//@   assert at call take: int64($n) == min(min(int64(maxBytes), int64(cs.cc.maxFrameSize)), min(int64(cs.flow.n), int64(cs.cc.flow.n)))
+//@   ensures  taken >= 0 && (taken > 0 ==> err == nil) && (err != nil ==> taken == 0)
+//@   ensures  ghost(granted) == int64(taken)
+//@   ensures  taken > 0 ==> int(taken) <= maxBytes && uint32(taken) <= cs.cc.maxFrameSize && cs.flow.n >= 0 && cs.cc.flow.n >= 0
+//@   noframe
+
+// ---------------------------------------------------------------------------
+// C09: writeRequestBody. Every DATA frame carries exactly the bytes the preceding awaitFlowControl
+// call granted (so at most both windows and the peer's maximum frame size as of the grant), on the
+// stream's own id; over the whole call the bytes written in DATA frames equal the bytes granted
+// (nothing is sent without a grant and no grant is dropped).
+//
+//@ func (*clientStream).writeRequestBody(cs, req) (err)
+//@   abstract
+//@   havoccalls except clientStream.cc, clientStream.ctx, clientStream.ID
+//@   havocs except clientStream.cc, clientStream.ctx, clientStream.ID
+//@   requires cs != nil && cs.cc != nil && cs.ctx != nil && req != nil
+//@   requires cs.flow.conn == &cs.cc.flow
+//@   requires 16384 <= cs.cc.maxFrameSize && cs.cc.maxFrameSize <= 1<<24-1
+//@   loop 2 assume cs.flow.conn == &cs.cc.flow
+//@   loop 2 assume 16384 <= cs.cc.maxFrameSize && cs.cc.maxFrameSize <= 1<<24-1
+//@   ghost granted += int64($r0) after call awaitFlowControl
+//@   ghost sent += int64(len($data)) at call WriteData
+//@   loop 1 invariant cs.cc == old(cs.cc) && cc == cs.cc && ghost(sent) == ghost(granted)
+//@   loop 2 invariant cs.cc == old(cs.cc) && cc == cs.cc && ghost(sent) == ghost(granted)
+//@   assert at call WriteData#1: $streamID == cs.ID && len($data) == int(allowed) && allowed >= 0 && ghost(sent) + int64(len($data)) == ghost(granted)
+//@   assert at call WriteData#1: allowed > 0 ==> uint32(len($data)) <= cs.cc.maxFrameSize
+//@   assert at call WriteData#2: $streamID == cs.ID && len($data) == 0 && $endStream
+//@   ensures  ghost(sent) == ghost(granted)
+//@   partial nopanic
+//@   noframe
+
+// ---------------------------------------------------------------------------
+// Trusted contracts (assumed, listed in the evidence): aborting a stream closes channels, runs a
+// sync.Once and starts a goroutine that closes the request body (outside the verified subset); it
+// does not touch the stream's windows, id or connection.
+//
+//@ func (*clientStream).abortStreamLocked(cs, err)
+//@   trusted
+//@   requires cs != nil
+//@   modifies *cs
+//@   preserves cs.flow, cs.inflow, cs.cc, cs.ID
+//@ func (*clientConnReadLoop).endStreamErrorLocked(rl, cs, err)
+//@   trusted
+//@   requires cs != nil
+//@   modifies *cs
+//@   preserves cs.flow, cs.inflow, cs.cc, cs.ID
+
+// wuSum is the mathematical sum of a window and an increment.
+//
+//@ pure
+func wuSum(n int32, inc int32) int64 { return int64(n) + int64(inc) }
+
+// fitsWindow: the value is a legal flow-control window (RFC 9113 6.9.1: at most 2^31-1; windows
+// may be negative after a SETTINGS_INITIAL_WINDOW_SIZE reduction).
+//
+//@ pure
+func fitsWindow(v int64) bool { return -(1<<31) <= v && v <= 1<<31-1 }
+
+// C09: processWindowUpdate. A WINDOW_UPDATE grows exactly the addressed window by exactly its
+// increment and wakes blocked writers; when the sum would exceed 2^31-1 the window is left
+// unchanged and the error is reported: a connection error FLOW_CONTROL_ERROR for stream 0, a
+// stream error FLOW_CONTROL_ERROR (the stream is ended) otherwise. Frames for unknown or
+// read-aborted streams change nothing.
+//
+//@ func (*clientConnReadLoop).processWindowUpdate(rl, f) (err)
+//@   usebody streamByID
+//@   requires rl != nil && rl.cc != nil && f != nil
+//@   requires rl.cc.streams[uint32(0)] == nil
+//@   ghost woken += 1 at call Broadcast
+//@   ghost ended += 1 at call endStreamErrorLocked
+//@   assert at call endStreamErrorLocked: $cs == old(rl.cc.streams[f.StreamID]) && f.StreamID != 0 && !fitsWindow(wuSum(old(rl.cc.streams[f.StreamID].flow.n), int32(f.Increment)))
+//@   assert at call endStreamErrorLocked: hastype($err, StreamError) && $err.(StreamError).Code == ErrCodeFlowControl && $err.(StreamError).StreamID == f.StreamID
+//@   ensures  f.StreamID == 0 ==> (err != nil <==> !fitsWindow(wuSum(old(rl.cc.flow.n), int32(f.Increment))))
+//@   ensures  f.StreamID == 0 && err == nil ==> int64(rl.cc.flow.n) == wuSum(old(rl.cc.flow.n), int32(f.Increment)) && ghost(woken) == 1
+//@   ensures  f.StreamID == 0 && err != nil ==> rl.cc.flow.n == old(rl.cc.flow.n) && hastype(err, ConnectionError) && err.(ConnectionError) == ConnectionError(ErrCodeFlowControl)
+//@   ensures  f.StreamID != 0 ==> err == nil && rl.cc.flow.n == old(rl.cc.flow.n)
+//@   ensures  f.StreamID != 0 && old(rl.cc.streams[f.StreamID] != nil && !rl.cc.streams[f.StreamID].readAborted) && fitsWindow(wuSum(old(rl.cc.streams[f.StreamID].flow.n), int32(f.Increment))) ==> int64(old(rl.cc.streams[f.StreamID]).flow.n) == wuSum(old(rl.cc.streams[f.StreamID].flow.n), int32(f.Increment)) && ghost(woken) == 1 && ghost(ended) == 0
+//@   ensures  f.StreamID != 0 && old(rl.cc.streams[f.StreamID] != nil && !rl.cc.streams[f.StreamID].readAborted) && !fitsWindow(wuSum(old(rl.cc.streams[f.StreamID].flow.n), int32(f.Increment))) ==> old(rl.cc.streams[f.StreamID]).flow.n == old(rl.cc.streams[f.StreamID].flow.n) && ghost(ended) == 1
+//@   ensures  f.StreamID != 0 && old(rl.cc.streams[f.StreamID] == nil || rl.cc.streams[f.StreamID].readAborted) ==> ghost(woken) == 0 && ghost(ended) == 0
+//@   ensures  f.StreamID != 0 && old(rl.cc.streams[f.StreamID]) != nil && old(rl.cc.streams[f.StreamID].readAborted) ==> old(rl.cc.streams[f.StreamID]).flow.n == old(rl.cc.streams[f.StreamID].flow.n)
+//@   modifies rl.cc.flow.n, *rl.cc.streams[f.StreamID], rl.cc.rstStreamPingsBlocked, rl.cc.readBeforeStreamID
+
+// ---------------------------------------------------------------------------
+// C09: SETTINGS. The per-setting callback of processSettingsNoWrite.
+//
+// maxFrameSize is only ever set to a value in the legal range 16384..2^24-1 (so the conversion
+// int32(cc.maxFrameSize) in awaitFlowControl is exact), and exactly to the value the server sent.
+// SETTINGS_INITIAL_WINDOW_SIZE above 2^31-1 is a FLOW_CONTROL_ERROR connection error and changes
+// nothing; otherwise every stream window the loop visits moves by exactly the difference between
+// the new and the old initial size when the result is a legal window, and stays unchanged when it
+// is not (outflow.add refuses); the new initial size is recorded and blocked writers are woken.
+// (That every stream is visited is the semantics of range over the stream map, not modelled.)
+// SETTINGS_MAX_CONCURRENT_STREAMS is recorded exactly (C17).
+//
+//@ func (*clientConnReadLoop).processSettingsNoWrite$1(s) (err)
+//@   havocs
+//@   requires cc != nil
+//@   requires 16384 <= cc.maxFrameSize && cc.maxFrameSize <= 1<<24-1 && cc.initialWindowSize <= 1<<31-1
+//@   requires forall id uint32 :: cc.streams[id] != nil
+//@   requires cc.henc != nil && (!cc.henc.tableSizeUpdate ==> cc.henc.minSize == 4294967295)
+//@   ghost woken += 1 at call Broadcast
+//@   ensures  16384 <= cc.maxFrameSize && cc.maxFrameSize <= 1<<24-1 && cc.initialWindowSize <= 1<<31-1
+//@   ensures  s.ID == SettingMaxFrameSize ==> (err != nil <==> (s.Val < 16384 || s.Val > 1<<24-1))
+//@   ensures  s.ID == SettingMaxFrameSize && err == nil ==> cc.maxFrameSize == s.Val
+//@   ensures  s.ID != SettingMaxFrameSize || err != nil ==> cc.maxFrameSize == old(cc.maxFrameSize)
+//@   ensures  s.ID == SettingInitialWindowSize ==> (err != nil <==> s.Val > 1<<31-1)
+//@   ensures  s.ID == SettingInitialWindowSize && err != nil ==> hastype(err, ConnectionError) && err.(ConnectionError) == ConnectionError(ErrCodeFlowControl)
+//@   ensures  s.ID == SettingInitialWindowSize && err == nil ==> cc.initialWindowSize == s.Val && ghost(woken) == 1
+//@   ensures  s.ID != SettingInitialWindowSize || err != nil ==> cc.initialWindowSize == old(cc.initialWindowSize)
+//@   ensures  s.ID == SettingMaxConcurrentStreams ==> err == nil && cc.maxConcurrentStreams == s.Val && seenMaxConcurrentStreams
+//@   ensures  s.ID != SettingMaxConcurrentStreams ==> cc.maxConcurrentStreams == old(cc.maxConcurrentStreams) && seenMaxConcurrentStreams == old(seenMaxConcurrentStreams)
+//@   loop 1 invariant cc == old(cc) && cc.initialWindowSize == old(cc.initialWindowSize) && delta == int32(s.Val) - int32(old(cc.initialWindowSize)) && ghost(woken) == 0
+//@   loop 1 invariant cc.maxFrameSize == old(cc.maxFrameSize) && cc.maxConcurrentStreams == old(cc.maxConcurrentStreams) && seenMaxConcurrentStreams == old(seenMaxConcurrentStreams)
+//@   loop 1 step fitsWindow(wuSum(atiter(cs.flow.n), delta)) ==> int64(cs.flow.n) == wuSum(atiter(cs.flow.n), delta)
+//@   loop 1 step !fitsWindow(wuSum(atiter(cs.flow.n), delta)) ==> cs.flow.n == atiter(cs.flow.n)
+//@   assert at call add: $n == delta && int64(delta) == int64(s.Val) - int64(old(cc.initialWindowSize))
+//@   noframe
+
+// ---------------------------------------------------------------------------
+// C17 / C18: which connections take new requests, and when a stream may be opened.
+
+// connUsable is isUsableLocked without its wall-clock part (tooIdleLocked): no GOAWAY received, not
+// closed or closing, not marked do-not-reuse, and the stream-id space suffices for the requests
+// already waiting.
+//
+//@ pure
+func connUsable(goAway *GoAwayFrame, closed, closing, doNotReuse bool, nextStreamID uint32, pendingRequests int) bool {
+	return goAway == nil && !closed && !closing && !doNotReuse && int64(nextStreamID)+2*int64(pendingRequests) < 1<<31-1
+}
+
+// neverUsedClosed is the documented exception of idleStateLocked: a connection that was closed
+// (not for idleness) before it ever carried or reserved a request is handed one request, which
+// awaitOpenSlotForStreamLocked then fails with errClientConnNotEstablished.
+//
+//@ pure
+func neverUsedClosed(nextStreamID uint32, streamsReserved int, closed, closedOnIdle bool) bool {
+	return nextStreamID == 1 && streamsReserved == 0 && closed && !closedOnIdle
+}
+
+// tooIdleLocked reads the wall clock: its result is left open (opaque), it changes nothing.
+//
+//@ func (*ClientConn).tooIdleLocked(cc) (r)
+//@   opaque
+//@   requires cc != nil
+
+//@ func (*ClientConn).currentRequestCountLocked(cc) (r)
+//@   requires cc != nil
+//@   ensures  r == len(cc.streams) + cc.streamsReserved + cc.pendingResets
+
+//@ func (*ClientConn).isUsableLocked(cc) (r)
+//@   requires cc != nil
+//@   ensures  r ==> connUsable(cc.goAway, cc.closed, cc.closing, cc.doNotReuse, cc.nextStreamID, cc.pendingRequests)
+//@   ensures  cc.goAway != nil ==> !r
+
+// idleStateLocked: a connection is offered for a new request only if it is usable and, unless
+// StrictMaxConcurrentStreams is set, has a free concurrency slot (streams + reservations + unacknowledged
+// resets < SETTINGS_MAX_CONCURRENT_STREAMS); never a single-use connection that already carried a
+// request; the only other case is the never-used closed connection.
+//
+//@ func (*ClientConn).idleStateLocked(cc) (st)
+//@   requires cc != nil
+//@   ensures  st.canTakeNewRequest ==> !(cc.singleUse && cc.nextStreamID > 1)
+//@   ensures  st.canTakeNewRequest ==> neverUsedClosed(cc.nextStreamID, cc.streamsReserved, cc.closed, cc.closedOnIdle) || (connUsable(cc.goAway, cc.closed, cc.closing, cc.doNotReuse, cc.nextStreamID, cc.pendingRequests) && (cc.strictMaxConcurrentStreams || len(cc.streams) + cc.streamsReserved + cc.pendingResets < int(cc.maxConcurrentStreams)))
+//@   ensures  neverUsedClosed(cc.nextStreamID, cc.streamsReserved, cc.closed, cc.closedOnIdle) && !(cc.singleUse && cc.nextStreamID > 1) ==> st.canTakeNewRequest
+
+//@ func (*ClientConn).canTakeNewRequestLocked(cc) (r)
+//@   requires cc != nil
+//@   ensures  r ==> !(cc.singleUse && cc.nextStreamID > 1)
+//@   ensures  r ==> neverUsedClosed(cc.nextStreamID, cc.streamsReserved, cc.closed, cc.closedOnIdle) || (connUsable(cc.goAway, cc.closed, cc.closing, cc.doNotReuse, cc.nextStreamID, cc.pendingRequests) && (cc.strictMaxConcurrentStreams || len(cc.streams) + cc.streamsReserved + cc.pendingResets < int(cc.maxConcurrentStreams)))
+
+// reserveNewRequest (ClientConn.ReserveNewRequest, used by the connection pool): a slot is
+// reserved exactly when the connection is offered, and then exactly one.
+//
+//@ func (*ClientConn).reserveNewRequest(cc) (r)
+//@   requires cc != nil
+//@   ensures  r ==> cc.streamsReserved == old(cc.streamsReserved) + 1
+//@   ensures  !r ==> cc.streamsReserved == old(cc.streamsReserved)
+//@   ensures  r ==> !(cc.singleUse && cc.nextStreamID > 1)
+//@   ensures  r ==> old(neverUsedClosed(cc.nextStreamID, cc.streamsReserved, cc.closed, cc.closedOnIdle)) || (connUsable(cc.goAway, cc.closed, cc.closing, cc.doNotReuse, cc.nextStreamID, cc.pendingRequests) && (cc.strictMaxConcurrentStreams || len(cc.streams) + old(cc.streamsReserved) + cc.pendingResets < int(cc.maxConcurrentStreams)))
+//@   modifies cc.streamsReserved
+
+// canReserveLocked (net/http.ClientConn reservations): only below the limit, strict or not.
+//
+//@ func (*ClientConn).canReserveLocked(cc) (r)
+//@   requires cc != nil
+//@   ensures  r ==> len(cc.streams) + cc.streamsReserved + cc.pendingResets < int(cc.maxConcurrentStreams) && connUsable(cc.goAway, cc.closed, cc.closing, cc.doNotReuse, cc.nextStreamID, cc.pendingRequests)
+
+// ---------------------------------------------------------------------------
+// C18: GOAWAY.
+
+// setGoAway records the frame (so isUsableLocked is false from now on: no new streams), keeps the
+// first non-NO error code, and visits the streams: a stream is aborted only if its id is above the
+// server's last-stream-id; it is then aborted with errClientConnGotGoAway (which canRetryError
+// accepts), except stream 1 under a non-NO error code, which gets a non-retryable error. Streams
+// with id <= last are not aborted (abortStreamLocked is the only thing the loop does to a stream).
+// (That every stream is visited is the semantics of range over the stream map, not modelled.)
+//
+//@ func (*ClientConn).setGoAway(cc, f)
+//@   requires cc != nil && f != nil && f.valid
+//@   requires cc.goAway != nil ==> cc.goAway != f
+//@   requires forall id uint32 :: cc.streams[id] != nil && cc.streams[id].ID == id
+//@   ghost aborts += 1 at call abortStreamLocked
+//@   ghost retryable += 1 at call abortStreamLocked when $err == errClientConnGotGoAway
+//@   loop 1 invariant forall id uint32 :: cc.streams[id] != nil && cc.streams[id].ID == id
+//@   loop 1 invariant cc.goAway == f && f.LastStreamID == old(f.LastStreamID) && last == f.LastStreamID
+//@   loop 1 invariant f.ErrCode == ite(old(cc.goAway) != nil && old(cc.goAway.ErrCode) != ErrCodeNo, old(cc.goAway.ErrCode), old(f.ErrCode))
+//@   loop 1 step streamID <= last ==> ghost(aborts) == atiter(ghost(aborts)) && ghost(retryable) == atiter(ghost(retryable))
+//@   loop 1 step streamID > last ==> ghost(aborts) == atiter(ghost(aborts)) + 1
+//@   loop 1 step streamID > last && !(streamID == 1 && f.ErrCode != ErrCodeNo) ==> ghost(retryable) == atiter(ghost(retryable)) + 1
+//@   assert at call abortStreamLocked#1: streamID > f.LastStreamID && $err == errClientConnGotGoAway && !(streamID == 1 && f.ErrCode != ErrCodeNo)
+//@   assert at call abortStreamLocked#1: $cs == cc.streams[streamID]
+//@   assert at call abortStreamLocked#1: $cs.ID > f.LastStreamID
+//@   assert at call abortStreamLocked#2: streamID > f.LastStreamID && $cs == cc.streams[streamID] && streamID == 1 && f.ErrCode != ErrCodeNo && $err != nil && $err != errClientConnGotGoAway
+//@   ensures  cc.goAway == f && f.LastStreamID == old(f.LastStreamID)
+//@   ensures  f.ErrCode == ite(old(cc.goAway) != nil && old(cc.goAway.ErrCode) != ErrCodeNo, old(cc.goAway.ErrCode), old(f.ErrCode))
+//@   ensures  old(len(cc.goAwayDebug)) != 0 ==> cc.goAwayDebug == old(cc.goAwayDebug)
+//@   noframe
+
+// canRetryError: exactly the two connection-level "not sent / not processed" errors and
+// REFUSED_STREAM are retryable.
+//
+//@ func canRetryError(err) (r)
+//@   ensures r <==> (err == errClientConnUnusable || err == errClientConnGotGoAway || (hastype(err, StreamError) && err.(StreamError).Code == ErrCodeRefusedStream))
+//@   ensures r <==> retryableErr(err)
+
+// retryableErr is the specification of canRetryError, for use in other contracts.
+//
+//@ pure
+func retryableErr(err error) bool {
+	if err == errClientConnUnusable || err == errClientConnGotGoAway {
+		return true
+	}
+	if se, ok := err.(StreamError); ok {
+		return se.Code == ErrCodeRefusedStream
+	}
+	return false
+}
+
+// The error setGoAway gives to streams above the last-stream-id is retryable.
+//
+//@ lemma
+//@ usebody canRetryError
+//@ ensures ok
+func lemmaGoAwayErrorRetryable() (ok bool) {
+	return canRetryError(errClientConnGotGoAway)
+}
+
+// ---------------------------------------------------------------------------
+// C17: opening a stream.
+
+// addStreamLocked assigns the next stream id: the id is odd, it is the value nextStreamID had, and
+// nextStreamID advances by exactly 2 and stays odd and within 2^31-1, so ids are handed out in
+// strictly increasing order; the stream is registered under its own id (one more open stream), its
+// send window starts at the server's SETTINGS_INITIAL_WINDOW_SIZE and is linked to the connection
+// window (C09), its receive window at the advertised size.
+//
+//@ func (*ClientConn).addStreamLocked(cc, cs)
+//@   requires cc != nil && cs != nil && cc.streams != nil
+//@   requires cc.nextStreamID % 2 == 1 && cc.nextStreamID < 1<<31-1
+//@   requires cc.streams[cc.nextStreamID] == nil
+//@   requires cs.flow.n == 0 && cs.inflow.unsent == 0 && cc.initialWindowSize <= 1<<31-1 && cc.initialStreamRecvWindowSize >= 0
+//@   ensures  cs.ID == old(cc.nextStreamID) && cs.ID % 2 == 1 && cs.ID != 0
+//@   ensures  cc.nextStreamID == old(cc.nextStreamID) + 2 && cc.nextStreamID > cs.ID && cc.nextStreamID % 2 == 1 && cc.nextStreamID <= 1<<31
+//@   ensures  cc.streams[cs.ID] == cs && len(cc.streams) <= old(len(cc.streams)) + 1
+//@   ensures  forall id uint32 :: id != cs.ID ==> cc.streams[id] == old(cc.streams[id])
+//@   ensures  int64(cs.flow.n) == int64(cc.initialWindowSize) && cs.flow.conn == &cc.flow
+//@   ensures  cs.inflow.avail == cc.initialStreamRecvWindowSize
+//@   modifies cs.flow.n, cs.flow.conn, cs.inflow.avail, cs.ID, cc.nextStreamID, mapof(cc.streams)
+
+// awaitOpenSlotForStreamLocked returns nil only when, at that moment and under cc.mu, the
+// connection is usable (no GOAWAY received, not closed or closing, not do-not-reuse, id space
+// left, not an already used single-use connection) and the number of concurrency slots in use
+// (open streams + reservations + unacknowledged resets) is below SETTINGS_MAX_CONCURRENT_STREAMS,
+// with or without StrictMaxConcurrentStreams; otherwise the request waits (cond.Wait, after which
+// everything is re-checked: monitor model) or fails.
+// The ghost counters tell the two kinds of return apart: `checked` counts the slot checks
+// (currentRequestCountLocked), `waited` the waits. A return directly after a slot check has
+// checked == waited+1; every other return yields an error or, after a wake-up, the abort error of
+// the stream (`return cs.abortErr`), which is non-nil because streams are only ever aborted with a
+// non-nil error (all call sites of abortStream/abortStreamLocked pass one; not modelled: the
+// closed channel cs.abort).
+//
+//@ func (*ClientConn).awaitOpenSlotForStreamLocked(cc, cs) (err)
+//@   abstract
+//@   havoccalls except ClientConn.cond, clientStream.cc
+//@   havocs except ClientConn.cond, clientStream.cc
+//@   requires cc != nil && cs != nil && cc.cond != nil
+//@   ghost checked += 1 at call currentRequestCountLocked
+//@   ghost waited += 1 at call Wait
+//@   loop 1 invariant cc.cond != nil && ghost(checked) == ghost(waited)
+//@   ensures  ghost(checked) == ghost(waited) || ghost(checked) == ghost(waited) + 1
+//@   ensures  ghost(checked) == ghost(waited) + 1 ==> (err == nil <==> len(cc.streams) + cc.streamsReserved + cc.pendingResets < int(cc.maxConcurrentStreams))
+//@   ensures  ghost(checked) == ghost(waited) + 1 ==> connUsable(cc.goAway, cc.closed, cc.closing, cc.doNotReuse, cc.nextStreamID, cc.pendingRequests) && !(cc.singleUse && cc.nextStreamID > 1)
+//@   ensures  ghost(checked) == ghost(waited) ==> err != nil || err == cs.abortErr
+//@   noframe
+
+// shouldRetryRequest (called by RoundTrip with the error of a failed attempt): a request is
+// offered for another attempt only if the error is retryable; a request without body is retried
+// as it is; a request with body is retried with a fresh body from GetBody when there is one, as it
+// is only when the connection was never used for it (errClientConnUnusable: nothing was read from
+// the body), and otherwise fails with an error: a body that may have been consumed is never sent
+// twice. A non-retryable error is passed through unchanged.
+//
+//@ func shouldRetryRequest(req, err) (r, rerr)
+//@   havoccalls
+//@   allocates
+//@   requires req != nil && err != nil
+//@   ensures  (r == nil) <==> (rerr != nil)
+//@   ensures  !retryableErr(err) ==> r == nil && rerr == err
+//@   ensures  retryableErr(err) && old(req.Body == nil || req.Body == http.NoBody) ==> r == req && rerr == nil
+//@   ensures  retryableErr(err) && old(req.Body != nil && req.Body != http.NoBody && req.GetBody == nil) && err == errClientConnUnusable ==> r == req && rerr == nil
+//@   ensures  retryableErr(err) && old(req.Body != nil && req.Body != http.NoBody && req.GetBody == nil) && err != errClientConnUnusable ==> r == nil && rerr != nil
+//@   ensures  retryableErr(err) && old(req.Body != nil && req.Body != http.NoBody && req.GetBody != nil) && r != nil ==> fresh(r)
+//@   noframe
+
+// ---------------------------------------------------------------------------
+// C17: writeRequest opens a stream only in the critical section in which awaitOpenSlotForStreamLocked
+// returned nil, exactly once, and writes the request HEADERS for exactly the id that addStreamLocked
+// assigned, while that id is still the newest one (nextStreamID == id+2: the new-request lock
+// reqHeaderMu, a channel, is held from id assignment to the HEADERS write; the sequential model
+// cannot observe other goroutines here, the assertion pins the order of the two steps).
+//
+//@ func (*clientStream).writeRequest(cs, req, streamf) (err)
+//@   abstract
+//@   havoccalls except clientStream.cc, clientStream.ID, ClientConn.nextStreamID
+//@   havocs except clientStream.cc
+//@   requires cs != nil && cs.cc != nil && req != nil && cs.ctx != nil && cs.cc.cond != nil
+//@   loop 1 invariant 0 <= ghost(headers) && ghost(headers) <= ghost(opened) && ghost(opened) <= 1
+//@   ghost slots += 1 after call awaitOpenSlotForStreamLocked when $r0 == nil
+//@   ghost opened += 1 at call addStreamLocked
+//@   ghost headers += 1 at call encodeAndWriteHeaders
+//@   assert at call awaitOpenSlotForStreamLocked: $cc == cs.cc && $cs == cs && ghost(opened) == 0
+//@   assert at call addStreamLocked: $cc == cs.cc && $cs == cs && ghost(slots) == 1 && ghost(opened) == 0
+//@   assert at call encodeAndWriteHeaders: $cs == cs && ghost(opened) == 1 && ghost(headers) == 0
+//@   assert at call encodeAndWriteHeaders: cs.ID % 2 == 1 && cs.cc.nextStreamID == cs.ID + 2
+//@   ensures  ghost(opened) <= 1
+//@   ensures  ghost(headers) <= ghost(opened)
+//@   partial nopanic, pre
+//@   noframe
+
+// encodeAndWriteHeaders hands the header block to writeHeaders under the stream's own id. (The
+// local cc is captured by the header callback and therefore havocked with the heap by the abstracted
+// encoder call: that the frame size passed is cc.maxFrameSize of this very connection is not shown.)
+//
+//@ func (*clientStream).encodeAndWriteHeaders(cs, req) (err)
+//@   abstract
+//@   havoccalls except clientStream.cc, clientStream.ID
+//@   havocs except clientStream.cc, clientStream.ID
+//@   requires cs != nil && cs.cc != nil && cs.ctx != nil && req != nil
+//@   assert at call writeHeaders: $streamID == cs.ID && cs.ID == old(cs.ID)
+//@   partial nopanic, pre
+//@   noframe
+
+// writeHeaders: one HEADERS frame first, then only CONTINUATION frames, all on the given stream
+// id, no fragment longer than maxFrameSize, END_HEADERS exactly on the last one.
+//
+//@ func (*ClientConn).writeHeaders(cc, streamID, endStream, maxFrameSize, hdrs) (err)
+//@   havoccalls except clientStream.cc, clientStream.ctx, clientStream.ID
+//@   havocs except clientStream.cc, clientStream.ctx, clientStream.ID
+//@   requires cc != nil && maxFrameSize > 0
+//@   ghost hf += 1 at call WriteHeaders
+//@   ghost cf += 1 at call WriteContinuation
+//@   loop 1 invariant maxFrameSize == old(maxFrameSize) && streamID == old(streamID) && (first <==> ghost(hf) == 0) && 0 <= ghost(hf) && ghost(hf) <= 1 && (first ==> ghost(cf) == 0)
+//@   assert at call WriteHeaders: ghost(hf) == 0 && ghost(cf) == 0 && $p.StreamID == streamID && len($p.BlockFragment) > 0 && len($p.BlockFragment) <= maxFrameSize && $p.EndStream == endStream && ($p.EndHeaders <==> len(hdrs) == 0)
+//@   assert at call WriteContinuation: ghost(hf) == 1 && $streamID == streamID && len($headerBlockFragment) > 0 && len($headerBlockFragment) <= maxFrameSize && ($endHeaders <==> len(hdrs) == 0)
+//@   ensures  ghost(hf) <= 1 && (ghost(cf) != 0 ==> ghost(hf) == 1)
+//@   partial nopanic
+//@   noframe
+
+// ---------------------------------------------------------------------------
+// C09: why the SETTINGS_INITIAL_WINDOW_SIZE adjustment never lets the client believe in more
+// window than the server granted, although outflow.add's refusal is ignored there.
+// Stream invariant J: window - initialWindowSize >= -(2^31-1) (the window is the initial size minus
+// what was sent plus what WINDOW_UPDATE added, and awaitFlowControl never takes more than the
+// window: it holds when the stream is added, and take/add preserve it). Under J and legal initial
+// sizes the adjusted sum cannot fall below -2^31, so add can refuse only because the sum exceeds
+// 2^31-1: then the client keeps the smaller old window (never more than the server's view, which
+// is the sum), in all other cases the window is exactly the sum; J holds again for the new size.
+//
+//@ lemma
+//@ requires f != nil
+//@ requires iOld <= 1<<31-1 && iNew <= 1<<31-1 && int64(f.n) - int64(iOld) >= -(1<<31-1)
+//@ ensures ok
+func lemmaInitialWindowDelta(f *outflow, iOld, iNew uint32) (ok bool) {
+	n := f.n
+	delta := int32(iNew) - int32(iOld)
+	sum := int64(n) + int64(delta)
+	added := f.add(delta)
+	exactDelta := int64(delta) == int64(iNew)-int64(iOld)
+	noUnderflow := sum >= -(1<<31 - 1)
+	refusedOnlyAbove := added == (sum <= 1<<31-1)
+	neverAboveServer := int64(f.n) <= sum
+	exactWhenAdded := !added || int64(f.n) == sum
+	unchangedWhenRefused := added || f.n == n
+	invariantKept := int64(f.n)-int64(iNew) >= -(1<<31 - 1)
+	return exactDelta && noUnderflow && refusedOnlyAbove && neverAboveServer && exactWhenAdded && unchangedWhenRefused && invariantKept
+}
